@@ -61,7 +61,7 @@ impl Method for StDev {
 
 	fn new(length: Self::Params, &value: &Self::Input) -> Result<Self, Error> {
 		match length {
-			0 | 1 => Err(Error::WrongMethodParameters),
+			0 | 1 | PeriodType::MAX => Err(Error::WrongMethodParameters),
 			length => {
 				let k = ((length - 1) as ValueType).recip();
 
